@@ -32,6 +32,7 @@ structure State where
   good : Bool := true
   eof : Bool := false
   dlcs : Nat := 131072
+  readDemand : Int := 0        -- `m_readDemand`: n + tellg of the read that is blocked right now, 0 otherwise
   oob : Bool := false          -- model flag: the C++ code would read/write outside a vector (UB)
   hang : Bool := false         -- model flag: the C++ loop would not terminate
   deriving Repr, DecidableEq
@@ -49,11 +50,18 @@ def containing (l : List Cont) (p : Int) : Option (Nat × Cont) :=
 def guardRead (s : State) (n : Nat) : Bool :=
   s.abort || decide ((n : Int) + s.tellg ≤ s.tellp) || decide ((n : Int) + s.tellg > s.fileSize)
 
-def guardWrite (s : State) : Bool := s.abort || decide (s.tellp - s.tellg < s.bufferSize)
+/-- since fix 54cea87: a writer is also admitted while a blocked read still needs data (`m_tellp < m_readDemand`);
+    before it, a read larger than the buffer size blocked both sides for ever -/
+def guardWrite (s : State) : Bool :=
+  s.abort || decide (s.tellp - s.tellg < s.bufferSize) || decide (s.tellp < s.readDemand)
 
 /-- `(m_tellp - m_tellg) < m_bufferSize` (signed; before fix ceee689 the difference was cast to uint32_t,
     which blocked the inflater for ever once the get position had moved past the put position) -/
-def guardWriteCont (s : State) : Bool := s.abort || decide (s.tellp - s.tellg < s.bufferSize)
+def guardWriteCont (s : State) : Bool :=
+  s.abort || decide (s.tellp - s.tellg < s.bufferSize) || decide (s.tellp < s.readDemand)
+
+/-- a reader that finds its guard false publishes its demand before it sleeps -/
+def blockRead (s : State) (n : Nat) : State := { s with readDemand := (n : Int) + s.tellg }
 
 /-- the copy loop of `read` -/
 def readLoop : Nat → State → Int → Bytes → State × Bytes
